@@ -75,6 +75,17 @@ func (fv *FuncVC) call(v ssa.Value, cc *ssa.CallCommon, instr ssa.Instruction) {
 	}
 	tracked := fv.P.trackedName(cc)
 	var res []Val
+	if fv.inert && !fv.inertAllowed(cc) {
+		what := "dynamic call"
+		if cc.IsInvoke() {
+			what = "invoke " + ifaceKey(cc)
+		} else if f := cc.StaticCallee(); f != nil {
+			what = "call " + shortFn(f)
+		} else {
+			what = "call " + dynKey(cc)
+		}
+		fv.oblige("inert", sanitize(what), nil, pos, "false", "on a nil event nothing but the event's own methods may be called: "+what)
+	}
 	switch {
 	case cc.IsInvoke():
 		key := ifaceKey(cc)
@@ -102,6 +113,16 @@ func (fv *FuncVC) call(v ssa.Value, cc *ssa.CallCommon, instr ssa.Instruction) {
 			res = fv.applyContract(c, nil, args, ats, rts, pos, key, tracked)
 		} else {
 			res = fv.opaqueCall(key, args, ats, rts, tracked, pos)
+		}
+	}
+	if fv.inert && fv.inertOwnMethod(cc) {
+		for _, r := range res {
+			switch r.T.Sort.Kind {
+			case KRef:
+				fv.assume(app("=", r.T.S, "0"))
+			case KBool:
+				fv.assume(smtNot(r.T.S))
+			}
 		}
 	}
 	fv.setResult(v, res)
@@ -486,4 +507,30 @@ func (fv *FuncVC) loopOf(b *ssa.BasicBlock) bool {
 		}
 	}
 	return false
+}
+
+// inertAllowed: calls a method may make on a nil event.
+func (fv *FuncVC) inertAllowed(cc *ssa.CallCommon) bool {
+	f := cc.StaticCallee()
+	if f == nil || cc.IsInvoke() {
+		return false
+	}
+	if f.String() == "context.Background" {
+		return true
+	}
+	return fv.inertOwnMethod(cc)
+}
+
+// inertOwnMethod: a call to another guarded method of the same nil receiver;
+// that method is under the same sweep, so its nil-receiver behaviour (inert,
+// nil/false result) may be assumed here.
+func (fv *FuncVC) inertOwnMethod(cc *ssa.CallCommon) bool {
+	f := cc.StaticCallee()
+	if f == nil || cc.IsInvoke() || f.Signature.Recv() == nil || len(cc.Args) == 0 {
+		return false
+	}
+	if cc.Args[0] != ssa.Value(fv.Fn.Params[0]) || !types.Identical(f.Signature.Recv().Type(), fv.Fn.Signature.Recv().Type()) {
+		return false
+	}
+	return !nilguardInternal[f.Name()]
 }
